@@ -519,4 +519,175 @@ theorem decodeSet_optTpl (addr : Bytes) (ts : List Template) (pad rest : Bytes)
       c + (4 + ((tbody Wire.V9.encodeOptTemplate ts).length + pad.length)) := by omega
   rw [e]
 
+/-! ## Level 3: the whole export packet -/
+
+theorem applySet_acc (addr : Bytes) (recs : List Record) (c : Cache) (s : Wire.V9.FlowSet) :
+    Wire.V9.applySet addr (recs, c) s =
+      (recs ++ (Wire.V9.applySet addr ([], c) s).1, (Wire.V9.applySet addr ([], c) s).2) := by
+  cases s <;> simp [Wire.V9.applySet]
+
+/-- a well-formed flowset is longer than its header and has fewer items than octets -/
+theorem wfSet_length (addr : Bytes) (cache : Cache) (s : Wire.V9.FlowSet)
+    (hw : Wire.V9.wfSet addr cache s = true) : 4 < (Wire.V9.encodeFlowSet s).length := by
+  cases s with
+  | tpl ts pad =>
+    simp only [Wire.V9.wfSet, Bool.and_eq_true, List.all_eq_true] at hw
+    obtain ⟨⟨hne, hts⟩, _⟩ := hw
+    have := tbody_length_ge Wire.V9.encodeTemplate ts (by
+      intro t ht
+      obtain ⟨_, _, _, _, h5, _, _⟩ := (wfTemplate_iff t).1 (hts t ht)
+      rw [encodeTemplate_length]; omega)
+    cases ts with
+    | nil => simp at hne
+    | cons t ts =>
+      simp only [Wire.V9.encodeFlowSet, Wire.V9.encodeTemplateSet, encodeSet_length]
+      simp only [tbody, List.length_cons] at this
+      omega
+  | optTpl ts pad =>
+    simp only [Wire.V9.wfSet, Bool.and_eq_true, List.all_eq_true] at hw
+    obtain ⟨⟨hne, hts⟩, _⟩ := hw
+    have := tbody_length_ge Wire.V9.encodeOptTemplate ts (by
+      intro t ht
+      rw [encodeOptTemplate_length]; omega)
+    cases ts with
+    | nil => simp at hne
+    | cons t ts =>
+      simp only [Wire.V9.encodeFlowSet, Wire.V9.encodeOptTemplateSet, encodeSet_length]
+      simp only [tbody, List.length_cons] at this
+      omega
+  | data t records pad =>
+    simp only [Wire.V9.wfSet, Bool.and_eq_true, decide_eq_true_eq, List.all_eq_true] at hw
+    obtain ⟨⟨⟨⟨_, hbig⟩, hne⟩, hrec⟩, _⟩ := hw
+    have := body_length_ge t hbig records hrec
+    cases records with
+    | nil => simp at hne
+    | cons x xs =>
+      simp only [Wire.V9.encodeFlowSet, Wire.V9.encodeDataSet, encodeSet_length]
+      simp only [body, List.length_cons] at this
+      omega
+
+/-- **C06 level 2 (any flowset)**: with more fuel than octets in the flowset, `decodeSet` consumes it
+entirely and has exactly the effect `applySet` specifies -/
+theorem decodeSet_flowSet (addr : Bytes) (s : Wire.V9.FlowSet) (rest : Bytes) (c fuel : Nat)
+    (cache : Cache) (recs : List Record)
+    (hw : Wire.V9.wfSet addr cache s = true) (hfuel : (Wire.V9.encodeFlowSet s).length < fuel) :
+    decodeSet addr fuel ⟨⟨Wire.V9.encodeFlowSet s ++ rest, c⟩, cache, recs⟩ =
+      (⟨⟨rest, c + (Wire.V9.encodeFlowSet s).length⟩, (Wire.V9.applySet addr (recs, cache) s).2,
+        (Wire.V9.applySet addr (recs, cache) s).1⟩, none) := by
+  cases s with
+  | tpl ts pad =>
+    have hw' := hw
+    simp only [Wire.V9.wfSet, Bool.and_eq_true, List.all_eq_true] at hw'
+    have := tbody_length_ge Wire.V9.encodeTemplate ts (by
+      intro t ht
+      obtain ⟨_, _, _, _, h5, _, _⟩ := (wfTemplate_iff t).1 (hw'.1.2 t ht)
+      rw [encodeTemplate_length]; omega)
+    simp only [Wire.V9.encodeFlowSet, Wire.V9.encodeTemplateSet, encodeSet_length] at hfuel
+    simp only [tbody] at this
+    exact decodeSet_tpl addr ts pad rest c fuel cache recs hw (by omega)
+  | optTpl ts pad =>
+    have hw' := hw
+    simp only [Wire.V9.wfSet, Bool.and_eq_true, List.all_eq_true] at hw'
+    have := tbody_length_ge Wire.V9.encodeOptTemplate ts (by
+      intro t ht
+      rw [encodeOptTemplate_length]; omega)
+    simp only [Wire.V9.encodeFlowSet, Wire.V9.encodeOptTemplateSet, encodeSet_length] at hfuel
+    simp only [tbody] at this
+    exact decodeSet_optTpl addr ts pad rest c fuel cache recs hw (by omega)
+  | data t records pad =>
+    have hw' := hw
+    simp only [Wire.V9.wfSet, Bool.and_eq_true, decide_eq_true_eq, List.all_eq_true] at hw'
+    obtain ⟨⟨⟨⟨_, hbig⟩, _⟩, hrec⟩, _⟩ := hw'
+    have := body_length_ge t hbig records hrec
+    simp only [Wire.V9.encodeFlowSet, Wire.V9.encodeDataSet, encodeSet_length] at hfuel
+    simp only [body] at this
+    exact decodeSet_data addr t records pad rest c fuel cache recs hw (by omega)
+
+/-- octets of a list of flowsets -/
+def setsBytes (sets : List Wire.V9.FlowSet) : Bytes := (sets.map Wire.V9.encodeFlowSet).flatten
+
+theorem setsBytes_cons (s : Wire.V9.FlowSet) (ss : List Wire.V9.FlowSet) :
+    setsBytes (s :: ss) = Wire.V9.encodeFlowSet s ++ setsBytes ss := by simp [setsBytes]
+
+/-- the flowset loop of `Decode` over a well-formed list of flowsets: every flowset is consumed, the
+result is the fold of `applySet`, no error of either kind -/
+theorem outer_roundtrip (addr : Bytes) : ∀ (sets : List Wire.V9.FlowSet) (cache : Cache)
+    (recs : List Record) (c fuel : Nat) (errs : List Err),
+    Wire.V9.wfSets addr cache sets = true → sets.length < fuel →
+    outer addr fuel ⟨⟨setsBytes sets, c⟩, cache, recs⟩ errs =
+      (⟨⟨[], c + (setsBytes sets).length⟩, (sets.foldl (Wire.V9.applySet addr) (recs, cache)).2,
+        (sets.foldl (Wire.V9.applySet addr) (recs, cache)).1⟩, none, errs) := by
+  intro sets
+  induction sets with
+  | nil =>
+    intro cache recs c fuel errs _ hf
+    cases fuel with
+    | zero => omega
+    | succ n => simp [outer, setsBytes]
+  | cons s ss ih =>
+    intro cache recs c fuel errs hw hf
+    cases fuel with
+    | zero => omega
+    | succ n =>
+      simp only [Wire.V9.wfSets, Bool.and_eq_true] at hw
+      obtain ⟨hws, hwss⟩ := hw
+      have hlen := wfSet_length addr cache s hws
+      simp only [outer, setsBytes_cons]
+      rw [if_pos (by simp only [List.length_append]; omega)]
+      rw [decodeSet_flowSet addr s (setsBytes ss) c _ cache recs hws
+        (by simp only [List.length_append]; omega)]
+      simp only
+      rw [applySet_acc]
+      rw [ih _ _ _ n errs hwss (by simp only [List.length_cons] at hf; omega)]
+      simp only [List.foldl_cons, List.length_append, Nat.add_assoc]
+      rw [applySet_acc addr recs cache s]
+
+theorem readHeader_roundtrip (m : Wire.V9.Msg) (rest : Bytes)
+    (h1 : m.count < 65536) (h2 : m.upTime < 4294967296) (h3 : m.secs < 4294967296)
+    (h4 : m.seq < 4294967296) (h5 : m.srcId < 4294967296) :
+    readHeader ⟨Wire.V9.encodeHeader m ++ rest, 0⟩ = some (Wire.V9.expectedHdr m, ⟨rest, 20⟩) := by
+  simp only [readHeader, Wire.V9.encodeHeader, List.append_assoc]
+  rw [rU16_be16 9 (by decide)]
+  simp only
+  rw [rU16_be16 _ h1]
+  simp only
+  rw [rU32_be32 _ h2]
+  simp only
+  rw [rU32_be32 _ h3]
+  simp only
+  rw [rU32_be32 _ h4]
+  simp only
+  rw [rU32_be32 _ h5]
+  rfl
+
+theorem setsBytes_length_ge (addr : Bytes) : ∀ (sets : List Wire.V9.FlowSet) (cache : Cache),
+    Wire.V9.wfSets addr cache sets = true → sets.length ≤ (setsBytes sets).length := by
+  intro sets
+  induction sets with
+  | nil => intro _ _; simp
+  | cons s ss ih =>
+    intro cache hw
+    simp only [Wire.V9.wfSets, Bool.and_eq_true] at hw
+    have := ih _ hw.2
+    have := wfSet_length addr cache s hw.1
+    simp only [setsBytes_cons, List.length_append, List.length_cons]
+    omega
+
+/-- **C06 level 3 (packet)**: a well-formed export packet is decoded to its header, exactly the
+expected records in order, no non-fatal error, and the cache updated with the packet's templates -/
+theorem decode_roundtrip (c : Cache) (addr : Bytes) (m : Wire.V9.Msg)
+    (hw : Wire.V9.wfMsg addr c m = true) :
+    decode c addr (Wire.V9.encodeMsg m) =
+      (.ok (Wire.V9.expectedHdr m, (Wire.V9.expected addr c m).1, []), (Wire.V9.expected addr c m).2) := by
+  simp only [Wire.V9.wfMsg, Bool.and_eq_true, decide_eq_true_eq] at hw
+  obtain ⟨⟨⟨⟨⟨h1, h2⟩, h3⟩, h4⟩, h5⟩, hsets⟩ := hw
+  have hb : (m.sets.map Wire.V9.encodeFlowSet).flatten = setsBytes m.sets := rfl
+  simp only [decode, Wire.V9.encodeMsg, hb]
+  rw [readHeader_roundtrip m _ h1 h2 h3 h4 h5]
+  simp only [Wire.V9.expectedHdr, List.headD_cons, ne_eq, not_true_eq_false, if_false]
+  have hl := setsBytes_length_ge addr m.sets c hsets
+  rw [outer_roundtrip addr m.sets c [] 20 _ [] hsets
+    (by simp only [List.length_append]; omega)]
+  simp only [Wire.V9.expected]
+
 end Vflow.V9
